@@ -27,6 +27,8 @@ func isCookiePtr(t types.Type) bool {
 }
 
 func runC18(c *Ctx) {
+	c.R.Rule("RS-no-request-time-state", "request handling writes no state that outlives the request (package-level variables, objects built at start-up, constructor variables captured by handlers) declared in the packages implementing this property", 1)
+	runStateless(c, "RS-no-request-time-state", "pkg/cookies", "pkg/sessions/cookie")
 	r := c.R
 	r.Rule("R1-single-constructor", "http.Cookie allocated only in the constructors; every SetCookie argument derives from MakeCookieFromOptions; no hand-written Set-Cookie", 9)
 	r.Rule("R2-wiring", "constructor wires every attribute from its option; domain selection structure", 8)
@@ -36,6 +38,8 @@ func runC18(c *Ctx) {
 	r.Rule("R7-request-context-kept", "every WithContext/Clone of the inbound request keeps a context derived from its own Context() (the request scope lives there)", 2)
 	r.Rule("R8-cookie-options-frozen", "request-reachable code never writes a field of the shared options.Cookie, so the attributes every later cookie is built from stay the configured ones (shared with C09.R9)", 1)
 	r.Rule("R9-request-host-verbatim", "the host the cookie domain is chosen for is the X-Forwarded-Host value or req.Host itself: GetRequestHost returns one of the two unmodified", 1)
+	r.Rule("R10-size-bound", "the session cookie is sent unsplit only where the length of its whole Set-Cookie line was found within the threshold (<= 4096); every split part was measured the same way (shared with C10.R5, round 7)", 3)
+	runC10R5(c, "R10-size-bound")
 	r.Rule("R5-domain-order", "validation sorts domains longest-first; the list is never reordered or written afterwards", 4)
 
 	mk := c.Fn("R1-single-constructor", "pkg/cookies.MakeCookieFromOptions")
